@@ -445,6 +445,7 @@ async fn probe_task(
     // Handlers which are in the middle of an "accept late" sleep finish it first
     Timer::after(Duration::from_millis(2_000)).await;
     let list: Vec<Workload> = (0..planted.len())
+        .filter(|i| planted[*i].a == app.node || planted[*i].b == app.node)
         .map(|i| Workload {
             id: PROBE_WL_BASE + i as u16,
             planted: i,
@@ -583,7 +584,7 @@ pub fn stack_root(ctx: StackCtx, shared: Rc<NodeShared>) -> RootFut {
         matter.with_state(|state| {
             state.fabrics.add_with_post_init(|_| Ok(())).unwrap();
         });
-        for p in &ctx.planted {
+        for p in ctx.planted.iter().filter(|p| p.a == ctx.node || p.b == ctx.node) {
             plant(&matter, &crypto, ctx.node, p).expect("plant session");
         }
 
